@@ -557,7 +557,9 @@ impl ProcessorSetBuilder {
                     );
 
                     // There might not be enough to fill the request, which is fine.
-                    let choose_count = count.min(processors_in_region.len());
+                    // We only take as many as we still need, so we never exceed `count`.
+                    let remaining_count = count.saturating_sub(processors.len());
+                    let choose_count = remaining_count.min(processors_in_region.len());
 
                     let region_processors = processors_in_region
                         .sample(&mut rng(), choose_count)
